@@ -148,6 +148,8 @@ def find_witness(repo, verif, build, prop, violation):
 def replay_witness(repo, verif, build, rep):
     w = rep["witness"]
     short = w["harness"].split("::")[-1]
+    if short.startswith("bounded_"):
+        short = w["harness"]
     env = dict(os.environ)
     env["CARGO_NET_OFFLINE"] = "true"
     env["RUSTFLAGS"] = (env.get("RUSTFLAGS", "") + " --cfg pearl_verif").strip()
@@ -161,3 +163,40 @@ def replay_witness(repo, verif, build, rep):
         print("VIOLATION property=%s replay=%s obligation=%s (replayed on the real code)" % (rep["property"], "<this file>", rep["obligation"]))
         return 1
     return 0
+
+
+def run_native(repo, verif, build, specs, tier):
+    """native bounded stand-ins: exhaustive enumeration tests compiled into the real crate under
+    cfg(pearl_verif) (kani/*.rs, EnumSrc). Labelled bounded; never counted as proved."""
+    out = []
+    for s in specs:
+        env = dict(os.environ)
+        env["CARGO_NET_OFFLINE"] = "true"
+        env["RUSTFLAGS"] = (env.get("RUSTFLAGS", "") + " --cfg pearl_verif").strip()
+        env["VERIF_BOUND"] = "thorough" if tier == "thorough" else "quick"
+        cmd = ["cargo", "test", "--offline", "--lib", "--target-dir", os.path.join(build, "replay-target"),
+               s["test"], "--", "--nocapture", "--test-threads", "1"]
+        t0 = time.time()
+        try:
+            r = subprocess.run(cmd, cwd=repo, env=env, stdout=subprocess.PIPE, stderr=subprocess.STDOUT, text=True, timeout=1800)
+            o = r.stdout
+        except subprocess.TimeoutExpired:
+            o = "TIMEOUT"
+        e = {"harness": s["harness"], "kind": "bounded", "bound": s.get("bound_" + ("thorough" if tier == "thorough" else "quick"), s.get("bound")),
+             "what": s.get("what", ""), "functions": s.get("functions", []), "file": s.get("file"),
+             "cmd": "(cd /repo && RUSTFLAGS='--cfg pearl_verif' VERIF_BOUND=%s %s)" % (env["VERIF_BOUND"], " ".join(cmd)), "wall_s": time.time() - t0,
+             "backend": "native exhaustive enumeration"}
+        m = re.search(r"BOUNDED-OK harness=\S+ runs=(\d+)", o)
+        v = re.search(r"BOUNDED-VIOLATION harness=(\S+) group_size=(\d+) ops=(\d+) nkeys=(\d+) choices=(\[.*\])", o)
+        if v:
+            msg = [l for l in o.splitlines() if "REPLAY-VIOLATION" in l]
+            e.update(status="failed", failure=(msg[0] if msg else "assertion failed"),
+                     witness={"harness": "%s:%s:%s:%s" % (v.group(1), v.group(2), v.group(3), v.group(4)),
+                              "concrete_vals": json.loads(v.group(5)),
+                              "how_to_replay": "./check <prop> --replay <this file>: runs the same body on these choices against the real code"})
+        elif m and "test result: ok" in o:
+            e.update(status="ok", checks=int(m.group(1)))
+        else:
+            e.update(status="undecided", reason="native bounded test gave no verdict: " + _first_error(o))
+        out.append(e)
+    return out
